@@ -54,7 +54,7 @@ def check_relations(cases, res, stratum, keep_array=False):
             ok, why = relation_ok(r, code, v, nf)
             if not ok:
                 one = dict(c)
-                if keep_array: one['index_in_original'] = j          # (the neighbours are part of the failing input)
+                if keep_array or c['carrier'] in ('arr_obj', 'arr2d_T', 'arr_obj2d', 'arr_obj_f32'): one['index_in_original'] = j          # (the neighbours are part of the failing input)
                 else: one['vals'] = [c['vals'][j]]
                 res.fail(one, 'C05: rounding contract violated (%s)' % why, expected='relation holds', got={'code': code, 'v': str(v)})
                 break
